@@ -255,7 +255,13 @@ where {
 
         // Cleartext body
         writer.write_all(self.csf_encoded_text.as_bytes())?;
-        writer.write_all(b"\n")?;
+        // The line ending that terminates the text is not part of the text. After a text that
+        // ends in a lone CR a bare LF would be read back as a CRLF line ending, dropping the CR.
+        if self.csf_encoded_text.ends_with('\r') {
+            writer.write_all(b"\r\n")?;
+        } else {
+            writer.write_all(b"\n")?;
+        }
 
         /// A signature wrapper that serializes complete with packet header
         struct SerializableSignatures<'a>(&'a [Signature]);
